@@ -75,6 +75,11 @@ claim("C07", "exploration",
       "Mutations observed at libc level; helpers never write to $IN so any input change is fclones' own.",
       "proptest generation; oracle = inventory equality + system-call trace invariant (LD_PRELOAD interposer)", "DESIGN.md 4 C07")
 
+claim("C15", "fault_enumeration",
+      "Read-side libc calls (stat, lstat, open, n-th read, opendir, n-th readdir, readlink, FIEMAP) of a clean `group` run are recorded per tree entry; for every entry below the roots, every recorded occurrence and every applicable errno (EACCES, EIO, ENOENT) one run is made with that call failing, plus sampled pairs and walk-time failures of the input paths themselves. Metamorphic oracle: report equals a clean run on the tree with the affected entry (file incl. its hard links, sub-tree, or not-yet-listed children) physically removed, in any admissible combination for tolerated metadata failures; exit 0; warning unless ENOENT; a file whose read failed is in no group.",
+      "Faults are injected at libc level by path and occurrence (schedule independent). Complete over the recorded calls of each explored scenario (occurrences capped at 6-8 per function and path); scenarios are sampled.",
+      "fault enumeration over recorded read-side calls on proptest-generated scenarios; metamorphic oracle (faulted run == clean run without the entry)", "DESIGN.md 4 C15")
+
 NOT_YET = "check not built yet in this round (planned: see DESIGN.md section 4); not claimed until it exists"
 
 hooks_commits = subprocess.run(["git","-C","/repo","log","--format=%H %s"],capture_output=True,text=True).stdout.splitlines()
